@@ -96,3 +96,44 @@ def lev_int(ref, hyp, ci, cd, cs):
             cur[r] = a if (a <= b and a <= c) else (b if b <= c else c)
         prev = cur
     return prev[R]
+
+
+def lev_int_full(ref, hyp, ci, cd, cs):
+    """Integer-cost DP carrying (cost, fewest edits, most edits) per cell; returns the three lists over hypothesis
+    prefixes for the full reference, and the full cost table (list over prefixes of columns) for the OCD oracle."""
+    R = len(ref)
+    col = [(r * cd, r, r) for r in range(R + 1)]
+    outs = [col[R]]
+    cols = [[c[0] for c in col]]
+    for h in hyp:
+        new = [(col[0][0] + ci, col[0][1] + 1, col[0][2] + 1)] + [None] * R
+        for r in range(1, R + 1):
+            m = ref[r - 1] == h
+            cands = (
+                (col[r][0] + ci, col[r][1] + 1, col[r][2] + 1),
+                (col[r - 1][0] + (0 if m else cs), col[r - 1][1] + (0 if m else 1), col[r - 1][2] + (0 if m else 1)),
+                (new[r - 1][0] + cd, new[r - 1][1] + 1, new[r - 1][2] + 1),
+            )
+            best = min(c[0] for c in cands)
+            new[r] = (best, min(c[1] for c in cands if c[0] == best), max(c[2] for c in cands if c[0] == best))
+        col = new
+        outs.append(col[R])
+        cols.append([c[0] for c in col])
+    return outs, cols
+
+
+def ocd_targets_int(ref, cols_j, ci, cd, cs, alphabet):
+    """OCD targets for the prefix whose cost column is cols_j: tokens t whose appended column keeps the minimum."""
+    R = len(ref)
+    base = min(cols_j)
+    out = []
+    for t in sorted(set(alphabet) | set(ref)):
+        new = [cols_j[0] + ci] + [0] * R
+        for r in range(1, R + 1):
+            a = cols_j[r] + ci
+            b = cols_j[r - 1] + (0 if ref[r - 1] == t else cs)
+            c = new[r - 1] + cd
+            new[r] = min(a, b, c)
+        if min(new) == base:
+            out.append(t)
+    return out
